@@ -78,10 +78,16 @@ func caseVariants(w string) []string {
 }
 
 // caseCatalogue is a second clause alphabet for the "filters" population: author / actor /
-// participant / title x every case variant of every caseWord, plus status and two sorts to combine
-// with. It is enumerated to 2 clauses.
+// participant / title x every case variant of every caseWord, metadata with keys that must be
+// quoted, clauses with a quoted qualifier, plus status and two sorts to combine with. It is
+// enumerated to 2 clauses.
 func caseCatalogue() []clause {
 	out := []clause{mk("status", "open", false), mk("status", "closed", false), mk("sort", "id", false), mk("sort", "edit-asc", false)}
+	// create metadata whose keys must be quoted, and quoted qualifiers
+	out = append(out, mkMeta("tracker url", "https://example.org/1", false), mkMeta("tracker url", "https://example.org/2", false),
+		mkMeta("tracker url", "absent", false), mkMeta("origin:kind", "mirror", false), mkMeta("origin:kind", "two words", false),
+		quoteQualifier(mk("status", "closed", false)), quoteQualifier(mk("label", "prod", false)), quoteQualifier(mk("author", "descartes", false)),
+		quoteQualifier(mkMeta("origin:kind", "mirror", false)), quoteQualifier(mk("sort", "creation-asc", false)))
 	for _, kind := range []string{"author", "actor", "participant", "title"} {
 		for _, w := range caseWords {
 			for _, v := range caseVariants(w) {
